@@ -1,5 +1,295 @@
 import Driver.Proto
+import TonicModel.Basic.RichErrorTypes
+import TonicModel.Basic.PbWire
+import TonicModel.Model.RichError
+import TonicModel.Spec.RichError
+/-
+C20 driver.  Case and observation formats are documented at the top of harness/src/c20.rs.
+`model` = what the model of tonic-types (over the concrete prost model) produces for the case;
+`verdict` = the spec clauses evaluated on the *observed* tokens only:
+  header-trip        outer code / message after the header encoding are the ones put in
+  embedded-status    the observed details bytes, read as a google.rpc.Status by the independent
+                     decoder of `Spec/`, carry that code and message
+  wire-conformant    … and exactly the attached details (kinds, order, field values)
+  vec-roundtrip / set-roundtrip   what check_error_details[_vec] returned equals what was attached
+  getters-first      each get_details_* returned the first detail of its kind
+  no-panic, err-implies-empty     decode side: an error or an empty result, never a panic
+-/
 namespace DriverC20
-/-- stub: property not yet claimed -/
-def handle (_case _obs : List String) : String × String := ("unclaimed", "fail:unclaimed")
+open Proto RichError
+
+/-! ### token parser -/
+
+abbrev P := StateT (List String) Option
+
+def tok : P String := fun s => match s with
+  | [] => none
+  | t :: r => some (t, r)
+
+def peek? : P (Option String) := fun s => some (s.head?, s)
+
+def num : P Nat := do
+  let t ← tok
+  match t.toNat? with
+  | some n => pure n
+  | none => failure
+
+def bytes : P Bytes := do
+  let t ← tok
+  match unhex t with
+  | some b => pure b
+  | none => failure
+
+/-- a Rust `String`: must be valid UTF-8 -/
+def str : P Bytes := do
+  let b ← bytes
+  if Utf8Rust.valid b then pure b else failure
+
+def rep {α : Type} (p : P α) : Nat → P (List α)
+  | 0 => pure []
+  | n + 1 => do
+    let x ← p
+    let xs ← rep p n
+    pure (x :: xs)
+
+/-- a detail of a case; `clampAll` = the detail goes through `RetryInfo::new` in any case
+(the set form can only be built through `set_retry_info`) -/
+def detail (clampAll : Bool) : P ErrorDetail := do
+  let k ← tok
+  match k with
+  | "RI" | "RN" =>
+    let d ← (do
+      match ← peek? with
+      | some "-" => let _ ← tok; pure none
+      | _ =>
+        let s ← num
+        let n ← num
+        if n < 1000000000 then pure (some (Dur.mk s n)) else failure : P (Option Dur))
+    if k == "RN" || clampAll then pure (.retryInfo (RetryInfo.new d)) else pure (.retryInfo ⟨d⟩)
+  | "DI" =>
+    let n ← num
+    let st ← rep str n
+    let d ← str
+    pure (.debugInfo ⟨st, d⟩)
+  | "QF" =>
+    let n ← num
+    let vs ← rep (do let a ← str; let b ← str; pure (QuotaViolation.mk a b)) n
+    pure (.quotaFailure ⟨vs⟩)
+  | "EI" =>
+    let r ← str
+    let d ← str
+    let n ← num
+    let m ← rep (do let a ← str; let b ← str; pure (a, b)) n
+    if Spec.RichError.distinctKeys m then pure (.errorInfo ⟨r, d, m⟩) else failure
+  | "PF" =>
+    let n ← num
+    let vs ← rep (do let a ← str; let b ← str; let c ← str; pure (PreconditionViolation.mk a b c)) n
+    pure (.preconditionFailure ⟨vs⟩)
+  | "BR" =>
+    let n ← num
+    let vs ← rep (do let a ← str; let b ← str; pure (FieldViolation.mk a b)) n
+    pure (.badRequest ⟨vs⟩)
+  | "RQ" => do let a ← str; let b ← str; pure (.requestInfo ⟨a, b⟩)
+  | "RS" => do let a ← str; let b ← str; let c ← str; let d ← str; pure (.resourceInfo ⟨a, b, c, d⟩)
+  | "HP" =>
+    let n ← num
+    let vs ← rep (do let a ← str; let b ← str; pure (HelpLink.mk a b)) n
+    pure (.help ⟨vs⟩)
+  | "LM" => do let a ← str; let b ← str; pure (.localizedMessage ⟨a, b⟩)
+  | _ => failure
+
+def allKinds : List Kind :=
+  [.retryInfo, .debugInfo, .quotaFailure, .errorInfo, .preconditionFailure, .badRequest,
+   .requestInfo, .resourceInfo, .help, .localizedMessage]
+
+def slot (k : Kind) : P (Option ErrorDetail) := do
+  match ← peek? with
+  | some "-" => let _ ← tok; pure none
+  | _ =>
+    let d ← detail true
+    if d.kind = k then pure (some d) else failure
+
+def slots : List Kind → P (List (Option ErrorDetail))
+  | [] => pure []
+  | k :: ks => do
+    let x ← slot k
+    let xs ← slots ks
+    pure (x :: xs)
+
+def metaP : P (List (Bytes × Bytes)) := do
+  let n ← num
+  rep (do let a ← str; let b ← str; pure (a, b)) n
+
+def eoi : P Unit := fun s => if s.isEmpty then some ((), s) else none
+
+/-! ### rendering (mirrors `render_detail` of the harness) -/
+
+def bytesLt : Bytes → Bytes → Bool
+  | [], [] => false
+  | [], _ :: _ => true
+  | _ :: _, [] => false
+  | a :: as, b :: bs => a.toNat < b.toNat || (a == b && bytesLt as bs)
+
+def insertSorted (e : Bytes × Bytes) : List (Bytes × Bytes) → List (Bytes × Bytes)
+  | [] => [e]
+  | x :: xs => if bytesLt e.1 x.1 then e :: x :: xs else x :: insertSorted e xs
+
+def sortByKey (l : List (Bytes × Bytes)) : List (Bytes × Bytes) := l.foldr insertSorted []
+
+def renderDetail : ErrorDetail → List String
+  | .retryInfo x =>
+    match x.retryDelay with
+    | none => ["RI", "-"]
+    | some d => ["RI", toString d.secs, toString d.nanos]
+  | .debugInfo x => ["DI", toString x.stackEntries.length] ++ x.stackEntries.map hex ++ [hex x.detail]
+  | .quotaFailure x =>
+    ["QF", toString x.violations.length] ++ x.violations.flatMap fun v => [hex v.subject, hex v.description]
+  | .errorInfo x =>
+    ["EI", hex x.reason, hex x.domain, toString x.metadata.length] ++
+      (sortByKey x.metadata).flatMap fun e => [hex e.1, hex e.2]
+  | .preconditionFailure x =>
+    ["PF", toString x.violations.length] ++
+      x.violations.flatMap fun v => [hex v.type, hex v.subject, hex v.description]
+  | .badRequest x =>
+    ["BR", toString x.fieldViolations.length] ++ x.fieldViolations.flatMap fun v => [hex v.field, hex v.description]
+  | .requestInfo x => ["RQ", hex x.requestId, hex x.servingData]
+  | .resourceInfo x => ["RS", hex x.resourceType, hex x.resourceName, hex x.owner, hex x.description]
+  | .help x => ["HP", toString x.links.length] ++ x.links.flatMap fun v => [hex v.description, hex v.url]
+  | .localizedMessage x => ["LM", hex x.locale, hex x.message]
+
+def renderSlot : Option ErrorDetail → List String
+  | none => ["-"]
+  | some d => renderDetail d
+
+def renderSet (s : ErrorDetails) : List String := allKinds.flatMap fun k => renderSlot (s.get k)
+
+def countSet (s : ErrorDetails) : Nat := (allKinds.filter fun k => (s.get k).isSome).length
+
+def setOfSlots (l : List (Option ErrorDetail)) : ErrorDetails :=
+  l.foldl (fun acc o => match o with | none => acc | some d => acc.put d) {}
+
+/-! ### the model's observation -/
+
+/-- everything the harness prints after the header trip, from the model (the header encoding
+itself is C04's subject: here code, message, details bytes and metadata come back unchanged) -/
+def observe (code : Nat) (msg : Bytes) (md : List (Bytes × Bytes)) (details : Bytes) : List String :=
+  let e : List String := match prost.decStatus details with
+    | some st => ["E", "ok", toString st.code, hex st.message, toString st.details.length]
+    | none => ["E", "err"]
+  let v : List String := match checkVec prost details with
+    | some ds => ["V", "ok", toString ds.length] ++ ds.flatMap renderDetail
+    | none => ["V", "err"]
+  let s : List String := match checkSet prost details with
+    | some x => ["S", "ok"] ++ renderSet x
+    | none => ["S", "err"]
+  let g : List String := ["G"] ++ allKinds.flatMap fun k => renderSlot (getFirst prost k details)
+  let d : List String := ["D", toString (getVec prost details).length, toString (countSet (getSet prost details))]
+  ["T", toString code, hex msg, hex details, "M", toString md.length] ++
+    (sortByKey md).flatMap (fun e => [hex e.1, hex e.2]) ++ e ++ v ++ s ++ g ++ d
+
+/-! ### HashMap order
+
+prost writes a `HashMap` in its (per-process random) iteration order.  The model takes the order
+of the entries as part of its input, so the driver reads that order off the observed bytes: the
+metadata of each `ErrorInfo` of the case is permuted into the order in which its keys occur in
+the observed encoding — if and only if that is a permutation of the same entries. -/
+
+def observedOrders (obsBytes : Bytes) : List (List (Bytes × Bytes)) :=
+  match prost.decStatus obsBytes with
+  | none => []
+  | some st => st.details.filterMap fun a =>
+      if a.typeUrl = typeUrl .errorInfo then
+        match prost.decDetail .errorInfo a.value with
+        | some (.errorInfo x) => some x.metadata
+        | _ => none
+      else none
+
+def reorder : List ErrorDetail → List (List (Bytes × Bytes)) → List ErrorDetail
+  | [], _ => []
+  | .errorInfo x :: rest, o :: os =>
+    (if Spec.RichError.isPerm x.metadata o then .errorInfo { x with metadata := o } else .errorInfo x) ::
+      reorder rest os
+  | d :: rest, os => d :: reorder rest os
+
+/-! ### observed tokens -/
+
+/-- split the observation at its section markers -/
+def sect (m : String) (stop : String) (obs : List String) : List String :=
+  ((obs.dropWhile (· ≠ m)).drop 1).takeWhile (· ≠ stop)
+
+def obsBytes (obs : List String) : Option Bytes :=
+  match obs with
+  | "T" :: _ :: _ :: b :: _ => unhex b
+  | _ => none
+
+def handleBuilt (code : Nat) (msg : Bytes) (md : List (Bytes × Bytes)) (ds : List ErrorDetail)
+    (isSet : Bool) (obs : List String) : String × String :=
+  let ob := (obsBytes obs).getD []
+  let ds' := reorder ds (observedOrders ob)
+  let st : Status Unit :=
+    if isSet then withSet prost code msg (setOfSlots (ds'.map some)) () else withVec prost code msg ds' ()
+  let model := observe code msg md st.details
+  let expectVec := ["ok", toString ds.length] ++ ds.flatMap renderDetail
+  let expectSet := ["ok"] ++ renderSet (setOfSlots (ds.map some))
+  let expectFirst := allKinds.flatMap fun k => renderSlot (Spec.RichError.firstOfKind k ds)
+  -- the round-trip clauses are demanded on the property's domain (well-formed details: UTF-8
+  -- strings, distinct map keys, durations whose seconds fit an i64); outside it (a `RetryInfo`
+  -- literal above i64::MAX seconds, which tonic documents as clamped) only the rest is
+  let inDomain := ds.all Spec.RichError.wfDetail
+  let clauses : List (String × Bool) :=
+    [("no-panic", obs != ["panic"]),
+     ("header-trip", obs.take 3 == ["T", toString code, hex msg]),
+     ("embedded-status", Spec.RichError.embeds code msg ob)] ++
+    (if inDomain then
+      [("wire-conformant",
+          if isSet then Spec.RichError.carriesSet code msg ds ob else Spec.RichError.carries code msg ds ob),
+       ("getters-first", sect "G" "D" obs == expectFirst)] ++
+      (if isSet then [("set-roundtrip", sect "S" "G" obs == expectSet)]
+       else [("vec-roundtrip", sect "V" "S" obs == expectVec)])
+     else [])
+  (String.intercalate " " model, verdict clauses)
+
+def handleRaw (code : Nat) (msg : Bytes) (details : Bytes) (obs : List String) : String × String :=
+  let model := observe code msg [] details
+  let d := sect "D" "" obs
+  let clauses : List (String × Bool) :=
+    [("no-panic", obs != ["panic"]),
+     ("header-trip", obs.take 4 == ["T", toString code, hex msg, hex details]),
+     ("err-implies-empty",
+        (sect "V" "S" obs != ["err"] || d.head? == some "0") &&
+        (sect "S" "G" obs != ["err"] || d.drop 1 == ["0"]))]
+  (String.intercalate " " model, verdict clauses)
+
+def parseCase : P (String × Nat × Bytes × List (Bytes × Bytes) × List ErrorDetail × Bytes) := do
+  let kind ← tok
+  let code ← num
+  let msg ← str
+  if code > 16 then failure
+  match kind with
+  | "vec" =>
+    let _ ← tok
+    let md ← metaP
+    let n ← num
+    let ds ← rep (detail false) n
+    eoi
+    pure (kind, code, msg, md, ds, [])
+  | "set" =>
+    let _ ← tok
+    let md ← metaP
+    let sl ← slots allKinds
+    eoi
+    pure (kind, code, msg, md, sl.filterMap id, [])
+  | "raw" =>
+    let b ← bytes
+    eoi
+    pure (kind, code, msg, [], [], b)
+  | _ => failure
+
+def handle (case obs : List String) : String × String :=
+  match (parseCase.run case) with
+  | none => bad
+  | some ((kind, code, msg, md, ds, raw), _) =>
+    if kind == "raw" then handleRaw code msg raw obs
+    else handleBuilt code msg md ds (kind == "set") obs
+
 end DriverC20
